@@ -6,6 +6,7 @@ import NA.Proofs.F1EndToEnd
 import NA.Proofs.F1K2
 import NA.Proofs.F1Idem
 import NA.Proofs.F1RouteSafe
+import NA.Proofs.F1Mode
 /-!
 # F1 — the ASA diff engine on the fragment {access-group, access-list + object-group network, route}
 
@@ -512,6 +513,111 @@ example : (routeOpsOf exRA exRB).map (fun o => (showChanges [o.toChg])) =
     (exRA.map (·.text)).Nodup ∧ RouteWF (exRA ++ exRB) := by
   refine ⟨by decide, by decide, by decide, by decide, by unfold RouteWF; decide⟩
 
+/-! ## 10. C08 at engine level: configuration modes and removal of referenced objects -/
+
+/-- **`asa_F1_subcommands_in_own_mode`** (ALL inputs; static hypotheses: device ACL lines reference device groups, no
+group is named ""): replayed on the mode of the command line (`object-group network X` opens the sub-mode of `X`;
+`network-object`, `no network-object` and `exit` are legal only inside a sub-mode; every other command leaves
+it), the whole printed script is legal.  The proof carries the invariant `T` through every function of the
+engine model: whenever the engine believes to be in the sub-mode of `X` (`State.subCmdOf = X`), the command
+line IS in the sub-mode of `X` — and member commands for `X` are emitted only right behind `setCmdConfMode(X)`
+or `object-group network X` (`memberCmd_T`, `transferGroup_T`), so they reach their own parent. -/
+theorem asa_F1_subcommands_in_own_mode (a b : Config) (sc : Scripts) (r : Result) (hA : RefsClosedA ⟨a, b, sc⟩)
+    (hne : "" ∉ a.groups.map (·.1)) (h : engine a b sc = some r) : ∃ m, modeRun none r.script = some m :=
+  engine_modes a b sc r hA hne h
+
+/-- The invariant itself for the in-place edit of a group: behind `setMode st X` the command line is in the
+sub-mode of `X`, and the member command stays there. -/
+theorem asa_F1_member_command_in_parent_mode {st : St} (h : T st) (n : Name) (hn : n ≠ "") (m : String) :
+    T ((setMode st n).emit (.mem m)) ∧ T ((setMode st n).emit (.noMem m)) ∧ (setMode st n).mode = n :=
+  ⟨memberCmd_T h n hn _ (fun _ => rfl), memberCmd_T h n hn _ (fun _ => rfl), (setMode_T h n).2⟩
+
+/-- Non-vacuity: a script with a member command at top level is illegal; the K2 example's script is legal. -/
+example : modeRun none [.mem "host 10.1.1.1"] = none ∧
+    ((engine ex2Dev ex2Tgt ex2Scripts).map fun r => (modeRun none r.script).isSome) = some true := by
+  constructor <;> decide
+
+/-- What the strict device demands of a removing command. -/
+def removalGuard (d : Dev) : Chg → Prop
+  | .noGrp n => hasGroup d n = true ∧ groupReferenced d n = false
+  | .clearAcl n => hasAcl d n = true ∧ aclBound d n = false
+  | .noBind b => d.binds.lookup (b.dir, b.intf) = some b.acl
+  | .noRoute r => r ∈ d.routes
+  | _ => True
+
+theorem removalGuard_of_ok (d d' : Dev) (c : Chg) (h : exec1 d c = .ok d') : removalGuard d c := by
+  cases c with
+  | noGrp n =>
+    simp only [exec1] at h
+    split at h
+    · exact absurd h (by simp)
+    · split at h
+      · exact absurd h (by simp)
+      · rename_i h1 h2
+        exact ⟨by simpa using h1, by simpa using h2⟩
+  | clearAcl n =>
+    simp only [exec1] at h
+    split at h
+    · exact absurd h (by simp)
+    · split at h
+      · exact absurd h (by simp)
+      · rename_i h1 h2
+        exact ⟨by simpa using h1, by simpa using h2⟩
+  | noBind b =>
+    simp only [exec1] at h
+    split at h
+    · exact absurd h (by simp)
+    · rename_i h1
+      show d.binds.lookup (b.dir, b.intf) = some b.acl
+      simpa using h1
+  | noRoute r =>
+    simp only [exec1] at h
+    split at h
+    · exact absurd h (by simp)
+    · rename_i h1
+      show r ∈ d.routes
+      simpa using h1
+  | _ => trivial
+
+/-- **`asa_F1_no_referenced_object_deleted`** (class K2): at EVERY removing command of the printed script the
+strict device is in a state where the object-group is referenced by no access-list line, the access list is
+bound nowhere, the access-group / route to remove is there (`deleteUnused` removes access-group commands, then
+access lists, then the groups they referenced; `diffRoutes` removes only existing routes). -/
+theorem asa_F1_no_referenced_object_deleted (a b : Config) (sc : Scripts) (hc : k2Check a b sc = true) :
+    ∃ script, (engine a b sc).map (·.script) = some script ∧
+      ∀ pre c suf, script = pre ++ c :: suf → ∃ dm, exec (ofConfig a) pre = some dm ∧ removalGuard dm c := by
+  obtain ⟨script, d', h1, h2, _⟩ := k2_converges a b sc hc
+  refine ⟨script, h1, ?_⟩
+  intro pre c suf hs
+  rw [hs, exec_append] at h2
+  cases hp : exec (ofConfig a) pre with
+  | none => rw [hp] at h2; simp at h2
+  | some dm =>
+    refine ⟨dm, rfl, ?_⟩
+    rw [hp, Option.bind_some, exec_cons] at h2
+    unfold step at h2
+    cases hx : exec1 dm c with
+    | error e => rw [hx] at h2; simp at h2
+    | ok d1 => exact removalGuard_of_ok dm d1 c hx
+
+/-! ### Two device routes to one prefix: outside the class for a reason
+
+`diffRoutes` pairs an added route with the deleted device route to the same PREFIX (`dstOfRoute`: vrf and
+prefix, not the interface) — on a real ASA two routes to one prefix over different interfaces conflict.  The
+written device specification (harness/asacfg/dev.go, NA.AsaDev) treats `INTF IP MASK` as the destination; on a
+device that holds two routes to one prefix over two interfaces the joined replacement may remove the route of
+the other interface, and the strict device refuses the added route.  Such a device cannot exist on a real ASA;
+the class condition `(al.map dst).Nodup` of `routesCheck` therefore stays. -/
+def exR2Dev : Config := { intfs := ["inside", "outside"], routes := [⟨"inside 10.0.0.0 255.0.0.0 10.1.1.1", "10.0.0.0/8", 120⟩, ⟨"outside 10.0.0.0 255.0.0.0 1.1.1.2", "10.0.0.0/8", 120⟩] }
+def exR2Tgt : Config := { routes := [⟨"inside 10.0.0.0 255.0.0.0 10.1.1.3", "10.0.0.0/8", 120⟩] }
+
+theorem two_routes_one_prefix_outside_spec :
+    (engine exR2Dev exR2Tgt {}).map (fun r => (showChanges r.script, (run (ofConfig exR2Dev) r.script).2)) =
+      some (["no route outside 10.0.0.0 255.0.0.0 1.1.1.2\\N route inside 10.0.0.0 255.0.0.0 10.1.1.3",
+             "no route inside 10.0.0.0 255.0.0.0 10.1.1.1"], some (0, "route to identical destination exists")) ∧
+    k2Check exR2Dev exR2Tgt {} = false := by
+  constructor <;> decide
+
 def obligations : List Lean.Name := [
   ``names_fresh, ``names_injective, ``findGroup_sound, ``findGroup_first,
   ``group_equalize_converges, ``group_edit_emits_memOps, ``group_needed_never_edited, ``group_edit_only_if_small,
@@ -521,6 +627,8 @@ def obligations : List Lean.Name := [
   ``asa_acl_pair_converges_partial, ``asa_F1_converges_partial, ``deleteUnused_accepted, ``idempotent_counterexample,
   ``asa_F1_converges, ``asa_F1_unchanged_only_if_equivalent, ``asa_F1_resume_partial,
   ``asa_F1_iso_quiet, ``asa_F1_idempotent_partial,
-  ``diffUnordered_computes, ``asa_routes_script_is_model, ``asa_routes_phases, ``asa_routes_covered_every_step]
+  ``diffUnordered_computes, ``asa_routes_script_is_model, ``asa_routes_phases, ``asa_routes_covered_every_step,
+  ``asa_F1_subcommands_in_own_mode, ``asa_F1_member_command_in_parent_mode, ``asa_F1_no_referenced_object_deleted,
+  ``two_routes_one_prefix_outside_spec]
 
 end NA.F1
